@@ -329,7 +329,9 @@ def finish(run, level, rule_owner, behs, trace_lines, viols, coverage, assumptio
     confirmed = []
     if new and confirm is not None:
         for fp, rule, b, line in new[:12]:
-            if confirm(b, rule):
+            import inspect
+            okc = confirm(b, rule, line) if len(inspect.signature(confirm).parameters) >= 3 else confirm(b, rule)
+            if okc:
                 confirmed.append((fp, rule, b, line))
             else:
                 run.notes.append('unreproduced: %s' % fp)
